@@ -98,3 +98,107 @@ theorem buildLoop_fuel_irrelevant (zero : α) (nodes : List α) (q : List Nat) (
 end
 
 end CkbVerif.Hash
+
+namespace CkbVerif.Hash
+
+section decisions
+variable {α : Type}
+
+/-- the first element of a list sorted by `Reverse` is its maximum -/
+theorem sortBy_leRev_head_max (l : List Nat) : ∀ a ∈ l, a ≤ (sortBy leRev id l).headD 0 := by
+  intro a ha
+  have hs := sortBy_pairwise leRev id leRev_tot leRev_trans l
+  have hm : a ∈ sortBy leRev id l := (mem_sortBy leRev id).mpr ha
+  cases hq : sortBy leRev id l with
+  | nil => rw [hq] at hm; cases hm
+  | cons x xs =>
+    rw [hq] at hs hm
+    simp only [List.headD_cons]
+    rcases List.mem_cons.mp hm with rfl | hm
+    · exact Nat.le_refl _
+    · have := (List.pairwise_cons.mp hs).1 a hm
+      simpa [leRev, Nat.ble_eq] using this
+
+theorem sortBy_leRev_head_mem (l : List Nat) (hne : l ≠ []) : (sortBy leRev id l).headD 0 ∈ l := by
+  cases hq : sortBy leRev id l with
+  | nil =>
+    have := sortBy_length leRev id l
+    rw [hq] at this
+    exact absurd (List.length_eq_zero_iff.mp this.symm) hne
+  | cons x xs =>
+    simp only [List.headD_cons]
+    exact (mem_sortBy leRev id).mp (by rw [hq]; simp)
+
+/-- **when `build_merkle_proof` answers `None`** (exact): no leaves, no indices, or some index is not a leaf position -/
+theorem buildMerkleProof_none_iff (le : α → α → Bool) (merge : α → α → α) (zero : α) (leaves : List α) (idx : List Nat) :
+    buildMerkleProof le merge zero leaves idx = .none ↔ (leaves = [] ∨ idx = [] ∨ ∃ i ∈ idx, leaves.length ≤ i) := by
+  unfold buildMerkleProof buildProof
+  by_cases hl : leaves = []
+  · subst hl; simp [buildTree]
+  by_cases hi : idx = []
+  · subst hi; simp
+  have hn : 0 < leaves.length := List.length_pos_iff.mpr hl
+  have hlen := buildTree_length merge zero leaves hl
+  have e1 : (buildTree merge zero leaves).isEmpty = false := by
+    rw [List.isEmpty_eq_false_iff]; intro h; rw [h] at hlen; simp at hlen; omega
+  have e2 : idx.isEmpty = false := by rw [List.isEmpty_eq_false_iff]; exact hi
+  simp only [e1, e2, Bool.or_self, Bool.false_eq_true, if_false]
+  have hlc : ((buildTree merge zero leaves).length >>> 1) + 1 = leaves.length := by rw [hlen, shr_one]; omega
+  rw [hlc, shl_one]
+  have hmapne : idx.map (fun i => leaves.length + i - 1) ≠ [] := by simpa using hi
+  constructor
+  · intro h
+    right; right
+    split at h
+    · rename_i hge
+      have hm := sortBy_leRev_head_mem _ hmapne
+      rw [List.mem_map] at hm
+      obtain ⟨i, hi', he⟩ := hm
+      exact ⟨i, hi', by omega⟩
+    · split at h <;> cases h
+  · intro h
+    rcases h with h | h | ⟨i, hi', hge⟩
+    · exact absurd h hl
+    · exact absurd h hi
+    · have := sortBy_leRev_head_max (idx.map (fun i => leaves.length + i - 1)) (leaves.length + i - 1)
+        (List.mem_map.mpr ⟨i, hi', rfl⟩)
+      rw [if_pos (by omega)]
+
+/-- **when `retrieve_leaves` answers `None`** (exact) -/
+theorem retrieveLeaves_none_iff (zero : α) (leaves : List α) (p : MProof α) :
+    retrieveLeaves zero leaves p = none ↔
+      (leaves = [] ∨ p.indices = [] ∨ ∃ i ∈ p.indices, i < leaves.length - 1 ∨ 2 * leaves.length - 1 ≤ i) := by
+  unfold retrieveLeaves
+  by_cases hl : leaves = []
+  · subst hl; simp
+  by_cases hi : p.indices = []
+  · simp [hi]
+  have e1 : leaves.isEmpty = false := by rw [List.isEmpty_eq_false_iff]; exact hl
+  have e2 : p.indices.isEmpty = false := by rw [List.isEmpty_eq_false_iff]; exact hi
+  simp only [e1, e2, Bool.or_self, Bool.false_eq_true, if_false, shl_one]
+  constructor
+  · intro h
+    right; right
+    split at h
+    · cases h
+    · rename_i hall
+      simp only [List.all_eq_true, Bool.and_eq_true, Nat.ble_eq, Nat.blt_eq] at hall
+      apply Classical.byContradiction
+      intro hno
+      apply hall
+      intro x hx
+      have : ¬ (x < leaves.length - 1 ∨ 2 * leaves.length - 1 ≤ x) := fun hb => hno ⟨x, hx, hb⟩
+      omega
+  · intro h
+    rcases h with h | h | ⟨i, hi', hbad⟩
+    · exact absurd h hl
+    · exact absurd h hi
+    · rw [if_neg]
+      simp only [List.all_eq_true, Bool.and_eq_true, Nat.ble_eq, Nat.blt_eq]
+      intro hall'
+      have := hall' i hi'
+      omega
+
+end decisions
+
+end CkbVerif.Hash
